@@ -167,8 +167,10 @@ def main():
         bad_list = list(RecList.log)
         # written module state (memo tables ...): results after an arbitrary earlier call must still be a function of the arguments
         hist_dep = [p for p in pth if p.get('history') and not p.get('independent')]
+        # uninitialised memory (np.empty) is modelled as fresh symbols: a result that mentions one is not a function of the arguments
+        uninit_dep = [p for p in pth if any(n_.startswith('UNINIT_') for n_ in ST.consts_of(ST.terms_of(p['val'])))]
         completes = any(p['kind'] in ('ret', 'loopback') for p in pth)          # vacuity guard: the body has been run to completion on some path
-        ok = completes and not writes and not arr_writes and not bad_list and not hist_dep
+        ok = completes and not writes and not arr_writes and not bad_list and not hist_dep and not uninit_dep
 
         def refute(w, name=name):
             if name == 'survey.precise_inst_ht':
@@ -181,8 +183,8 @@ def main():
             return None
         P.oblige('frame[%s]' % name, name, '%d paths' % len(pth), dict(result='discharged' if ok else 'sat', backend='write barrier + recording list + read-only arrays, all paths', ms=0, model=None),
                  strict=True, refute=refute, pool=[{}],
-                 note='assigns nothing that existed before the call; writes=%r list-mutators=%r array-writes=%d; paths whose result depends on an earlier call through written module state: %d of %d history paths' % (
-                     [(c_, n_) for c_, n_, _, _ in writes][:6], bad_list[:4], len(arr_writes), len(hist_dep), sum(bool(p.get('history')) for p in pth)))
+                 note='assigns nothing that existed before the call; writes=%r list-mutators=%r array-writes=%d; paths whose result depends on an earlier call through written module state: %d of %d history paths; paths whose result reads uninitialised memory: %d' % (
+                     [(c_, n_) for c_, n_, _, _ in writes][:6], bad_list[:4], len(arr_writes), len(hist_dep), sum(bool(p.get('history')) for p in pth), len(uninit_dep)))
     P.notes.append('frame obligations explored %d paths of %d functions' % (total_paths, len(CAT)))
 
     # ---------------------------------------------------------------- (2) static frame analysis and (3) reads, per module
@@ -200,6 +202,10 @@ def main():
             params = {a.arg for a in fn.args.args + fn.args.kwonlyargs} | ({fn.args.vararg.arg} if fn.args.vararg else set())
             fresh = set()
             for n in ast.walk(fn):        # names bound in this function to a freshly allocated object (call / literal / operator result)
+                if isinstance(n, ast.Assign) and isinstance(n.value, ast.Call) and ast.unparse(n.value.func) in ('vars', 'globals', 'locals', 'getattr', 'object.__getattribute__'):
+                    continue          # vars(obj) / getattr(obj, ..) hand out an object that already exists: not a fresh allocation
+                if isinstance(n, ast.Assign) and isinstance(n.value, ast.Attribute) :
+                    continue
                 if isinstance(n, ast.Assign) and isinstance(n.value, (ast.Call, ast.List, ast.Dict, ast.Set, ast.ListComp, ast.BinOp, ast.Tuple, ast.Constant, ast.DictComp)):
                     for t in n.targets:
                         for q in ast.walk(t):
